@@ -67,6 +67,7 @@ type op struct {
 	Kind string `json:"op"` // write read mode modtime chmod touch size flushfile listd flushdir flushpathd
 	F    int    `json:"f"`
 	Sync bool   `json:"sync,omitempty"`
+	Flush bool  `json:"fdflush,omitempty"` // write: explicit fd.Flush() before the Close
 	Data string `json:"data,omitempty"`
 }
 
@@ -74,6 +75,9 @@ func (o op) coq() string {
 	f := strconv.Itoa(o.F) + "%nat"
 	switch o.Kind {
 	case "write":
+		if o.Flush {
+			return vh.App("OWriteFlush", f, vh.Bool(o.Sync))
+		}
 		return vh.App("OWrite", f, vh.Bool(o.Sync))
 	case "read":
 		return vh.App("ORead", f)
@@ -319,9 +323,9 @@ func evictedUnderOperation(threads [][]op, order []pass, f int) bool {
 			switch {
 			case o.Kind == "flushdir" || o.Kind == "flushpathd":
 				flushes = append(flushes, window(t, k))
-			case o.F == 0 && (o.Kind == "flushfile" || o.Kind == "chmod" || o.Kind == "touch" || (o.Kind == "write" && !o.Sync)):
+			case o.F == 0 && (o.Kind == "flushfile" || o.Kind == "chmod" || o.Kind == "touch" || (o.Kind == "write" && !o.Sync && !o.Flush)):
 				victims = append(victims, window(t, k))
-			case o.F == 0 && o.Kind == "write" && o.Sync:
+			case o.F == 0 && o.Kind == "write" && (o.Sync || o.Flush): // links its node itself (sync Close / explicit fd.Flush)
 				syncVictims = append(syncVictims, window(t, k))
 			}
 			if o.F == 0 && o.Kind != "flushdir" && o.Kind != "flushpathd" {
@@ -472,6 +476,12 @@ func (w *world) exec(t int, o op) string {
 		}
 		fd.Truncate(0)
 		fd.Write([]byte(o.Data))
+		if o.Flush {
+			if err := fd.Flush(); err != nil {
+				fd.Close()
+				return "ERR " + err.Error()
+			}
+		}
 		fd.Close()
 	case "read":
 		fd, err := w.file(o.F).Open(w.ctx, mfs.Flags{Read: true})
@@ -566,6 +576,7 @@ func genThreads(e *vh.Env, caseNo int) [][]op {
 			}
 			if o.Kind == "write" {
 				o.Sync = r.Intn(2) == 0
+				o.Flush = r.Intn(3) == 0
 				o.Data = fmt.Sprintf("c%d-t%d-op%d", caseNo, t, k)
 			}
 			if o.Kind == "listd" || o.Kind == "flushdir" || o.Kind == "flushpathd" {
@@ -590,7 +601,7 @@ func TestC20(t *testing.T) {
 	e := vh.Load(t)
 	st := vh.NewStats("2-3 goroutines with 1-3 operations each (write sync/non-sync, read, Mode, ModTime, Chmod, Touch, Size, File.Flush, List) mostly on one shared " +
 		"file of a fresh MFS root (/d/f, /g), plus cache-cleaning flushes of the directory /d (Directory.Flush, FlushPath), one schedule per case chosen at the verifhook points before the lock acquisitions of mfs/file.go and mfs/fd.go " +
-		"(corpus: the Mode/ModTime-versus-writer schedules, then a descriptor Flush / sync Close / non-sync Close parked at each of its points against a directory flush; then seeded random schedules); non-trivial = at least two goroutines use the same file and " +
+		"(corpus: the Mode/ModTime-versus-writer schedules, then a descriptor Flush / sync Close / non-sync Close / non-Sync descriptor with explicit fd.Flush parked at each of its points against a directory flush; then seeded random schedules); non-trivial = at least two goroutines use the same file and " +
 		"one of them takes its node lock for writing; distinct by (operations, points passed per goroutine)")
 	cs := vh.NewCases(e, "From V Require Import model.M_C20.", "case", "check_case", 100)
 	n := e.Pick(260, 5000)
@@ -617,7 +628,7 @@ func TestC20(t *testing.T) {
 	// of its own first operation (Size of /g) — outside the directory lock — until the descriptor
 	// has passed k points, then runs its directory flush to the end
 	for _, fl := range []string{"flushdir", "flushpathd"} {
-		for _, wr := range []op{w(0, true), {Kind: "flushfile", F: 0}, w(0, false)} {
+		for _, wr := range []op{w(0, true), {Kind: "flushfile", F: 0}, w(0, false), {Kind: "write", F: 0, Flush: true}, {Kind: "write", F: 0, Sync: true, Flush: true}} {
 			for k := 1; k <= 7; k++ {
 				pref := []int{}
 				for j := 0; j < k; j++ {
